@@ -33,6 +33,10 @@ type Case struct {
 	// LongLine: the first line of every file that ends in ';' (package / import) carries a trailing comment of 70 000
 	// characters ("any layout/comments"): no line or column of any declaration moves
 	LongLine bool `json:"longLine"`
+	// Prelude (histories): before the recorded runs the same process analyses ANOTHER project - the same files, except
+	// that a class in the middle of the walk order lives in another package (as many classes, the same first and last
+	// one). The recorded runs must not notice: their entries depend on their own files and identifier set only.
+	Prelude bool `json:"prelude"`
 }
 
 type KVObs struct {
@@ -254,6 +258,36 @@ func one(raw json.RawMessage) interface{} {
 		app := javaapp.NewJavaIdentifierApp()
 		fixedIdent = app.AnalysisFiles(all)
 	})
+	if c.Prelude && len(all) >= 3 {
+		var sel []int
+		for i, f := range c.Files {
+			if selected(f) {
+				sel = append(sel, i)
+			}
+		}
+		mid := sel[len(sel)/2]
+		other := filepath.Join(scratch, "earlier")
+		var files2 []string
+		for _, i := range sel {
+			f := c.Files[i]
+			if i == mid {
+				f.Pkg = "zz.moved"
+			}
+			text, facts := javagen.Render(f, c.Layout)
+			p := filepath.Join(other, filepath.FromSlash(facts.RelPath))
+			os.MkdirAll(filepath.Dir(p), 0o755)
+			if err := os.WriteFile(p, []byte(text), 0o644); err != nil {
+				panic("harness: " + err.Error())
+			}
+			files2 = append(files2, p)
+		}
+		lib.Guard(func() {
+			ia := javaapp.NewJavaIdentifierApp()
+			id2 := ia.AnalysisFiles(files2)
+			app := javaapp.NewJavaFullApp()
+			app.AnalysisFiles(id2, files2)
+		})
+	}
 	for ri, run := range c.Runs {
 		if ri < len(c.Fresh) && c.Fresh[ri] {
 			sub := Case{Case: c.Case, Files: c.Files, Layout: c.Layout, Runs: [][]int{run}}
